@@ -2,6 +2,7 @@
 """C20 - no download is reported successful with a file failing its published checksum."""
 
 import contextlib
+import os
 import functools
 import hashlib
 import io
@@ -10,6 +11,7 @@ import itertools
 import responses
 
 from .. import env
+from .. import core
 from ..core import require, Violation
 
 env.import_phylib()
@@ -69,7 +71,7 @@ def _cases(th):
                     k += 1
                     # the checksum file is served as text/plain or as application/octet-stream
                     yield {'data': ds, 'ck': ck, 'ckind': ckind, 'prior': prior, 'size': size,
-                           'ctype': k % 2, 'fmt': (k // 2) % 8}
+                           'ctype': k % 2, 'fmt': (k // 2) % 8, 'pathkind': (k // 16) % 4}
 
 
 def _big_cases(th):
@@ -204,6 +206,20 @@ def check(case):
 
     with env.scratch() as d:
         p = d / 'target.bin'
+        p_arg = p
+        pk = case.get('pathkind', 0)
+        if pk == 1:
+            p_arg = str(p)
+        elif pk == 2:
+            # the same file spelled through a symlinked directory and '..'
+            (d / 'releases' / 'v2').mkdir(parents=True)
+            os.symlink(str(d / 'releases' / 'v2'), str(d / 'current'), target_is_directory=True)
+            p = d / 'releases' / 'target.bin'
+            p_arg = str(d / 'current' / '..' / 'target.bin')
+        elif pk == 3:
+            (d / 'sub').mkdir()
+            os.symlink(str(d), str(d / 'sub' / 'back'), target_is_directory=True)
+            p_arg = d / 'sub' / 'back' / 'target.bin'
         if case['prior'] == 'valid':
             p.write_bytes(good)
         elif case['prior'] == 'corrupt':
@@ -214,8 +230,8 @@ def check(case):
             rm.add_callback(responses.HEAD, URL, callback=head_cb)
             try:
                 _event.reset()  # progress callbacks registered by earlier cases
-                with contextlib.redirect_stdout(io.StringIO()):
-                    download_file(URL, p)
+                with contextlib.redirect_stdout(io.StringIO()), core.ambient_ctx():
+                    download_file(URL, p_arg)
                 outcome = 'return'
             except RuntimeError:
                 outcome = 'runtime-error'
@@ -268,4 +284,5 @@ def classify(case, info):
         labels.append('retried')
     if case['size'] > 2 ** 20:
         labels.append('body>1MiB')
+    labels.append('path:' + ['Path', 'str', 'symlinked-dir/..', 'symlinked-dir'][case.get('pathkind', 0)])
     return labels, nt
